@@ -167,6 +167,22 @@ PROPERTIES = {
                      "floats as exact reals"],
         explanation="symbolic execution of the real setters / get_Efermi / electronic_entropy with loop invariants and callee contracts",
     ),
+    "C12": dict(
+        engines="ZA",
+        claim="read_gth: for every well-formed file structure (complete enumeration of the structure space fixed by the array shapes) and all "
+              "numeric values the parsed set is self-consistent (Zion, counts, upper triangle, symmetric h, zero padding), and the same "
+              "post-conditions hold on every bundled file (exhaustive native run); GTH projectors equal the Hankel transforms of the published "
+              "real-space forms and are normalised; local potential and its G=0 limit; real spherical harmonics; Coulomb / harmonic potentials "
+              "(see evidence for the clauses present in this run).",
+        note="number parsing (float/int of a token) is the identity on the token value; Gaussian-moment / Hankel / sphere-moment integral tables "
+             "are assumed lemmas; floats as reals",
+        modules=["contracts.c12_gth"],
+        level="proof",
+        trusted_base=["ast (parser)", "in-house AST->z3 symbolic executor (engine Z)", "engine A for the closed forms"],
+        assumptions=["float(token)/int(token) return the token's value", "assumed integral tables (listed per obligation)"],
+        explanation="symbolic execution of the real parser over the complete structure space; exact-algebra comparison of the real projector code "
+                    "with the transforms of the published forms",
+    ),
 }
 
 
